@@ -189,3 +189,145 @@ func placementAfterCatchUp(rec *mon.Recorder, c int) {
 	}
 	rec.Case(mon.Digest(desc), true)
 }
+
+// placementBehindAStuckHandler: the members a placement draws from must be the current ones even on a node whose
+// membership-notification handler is stuck. Node 3 dies while it leads two-replica partition groups it shares with the
+// other nodes and is then removed: the survivors' handlers propose the groups' own membership change and wait for a
+// leader that cannot be elected. Node 4 joins afterwards. A dataset created through any member must be placed on
+// min(R, 3) distinct nodes out of {1, 2, 4}.
+func TestC16SimStuckHandler(t *testing.T) {
+	rec := shared
+	n := rec.N(2, 12)
+	for c := 0; c < n; c++ {
+		if rec.Mine(c + 5) {
+			placementBehindAStuckHandler(rec, c)
+		}
+	}
+}
+
+func placementBehindAStuckHandler(rec *mon.Recorder, c int) {
+	rng := rec.Rand("c16-stuck", c)
+	desc := fmt.Sprintf("placement-behind-a-stuck-membership-handler case=%d nodes=4", c)
+	rec.Current(desc)
+	cl := sim.New(sim.Options{Nodes: 4, Dir: os.Getenv("VERIF_SCRATCH") + fmt.Sprintf("/c16h-%d", c), TickEvery: 5 * time.Millisecond, Seed: rec.Seed() + int64(c), NoJoinBarrier: true})
+	defer cl.Close()
+	for i := 0; i < 3; i++ {
+		if err := cl.StartNode(i); err != nil {
+			rec.Inconclusive(fmt.Sprintf("%s: node %d: %v", desc, i+1, err))
+			return
+		}
+		if i == 0 {
+			cl.WaitFor(20*time.Second, func() bool { return cl.Nodes[0].ZeroLeader() != 0 })
+		}
+		if cl.WaitMembership(i+1, 20*time.Second) != nil {
+			rec.Inconclusive(fmt.Sprintf("%s: the first %d nodes do not list each other", desc, i+1))
+			return
+		}
+	}
+	// two-replica partitions, enough of them that node 3 shares several with each of the others
+	var first *storage.Dataset
+	var cerr error
+	for attempt := 0; attempt < 8 && first == nil; attempt++ {
+		cl.Guard(6*time.Second, func() {
+			first, cerr = cl.Nodes[0].DM().Create(context.Background(), &pb.Dataset{Dimension: 3, PartitionCount: uint32(12 + rng.Intn(8)), ReplicationFactor: 2})
+		})
+	}
+	if first == nil {
+		rec.Inconclusive(fmt.Sprintf("%s: create: %v", desc, cerr))
+		return
+	}
+	dsId := uuid.FromBytesOrNil(first.Meta().GetId())
+	// the partition groups elect leaders; node 3 leads some of those it shares
+	led := 0
+	cl.WaitFor(10*time.Second, func() bool {
+		led = 0
+		for _, p := range first.Meta().GetPartitions() {
+			pid := uuid.FromBytesOrNil(p.GetId())
+			if g := cl.Nodes[2].PartitionRaft(dsId, pid); g != nil {
+				if st := g.VerifStatus(); st.Lead == 3 {
+					led++
+				}
+			}
+		}
+		return led >= 2
+	})
+	if led == 0 {
+		rec.Inconclusive(desc + ": node 3 leads none of the partition groups it is in")
+		return
+	}
+	// node 1 must not be the one that goes: it leads the membership group for the rest of the case if it can
+	cl.Crash(2)
+	cl.Teardown(2)
+	time.Sleep(400 * time.Millisecond) // the survivors' election timeouts pass: the shared groups have no leader now
+	var err error
+	if !cl.Guard(30*time.Second, func() { err = cl.Nodes[0].In.NodesManager.RemoveNode(3) }) || err != nil {
+		rec.Inconclusive(fmt.Sprintf("%s: removal of node 3 not acknowledged: %v", desc, err))
+		return
+	}
+	time.Sleep(300 * time.Millisecond) // the handlers are at work (and, on groups node 3 led, stuck)
+	if err := cl.StartNode(3); err != nil {
+		rec.Inconclusive(fmt.Sprintf("%s: join of node 4: %v", desc, err))
+		return
+	}
+	members := map[uint64]bool{1: true, 2: true, 4: true}
+	up := []*sim.Node{cl.Nodes[0], cl.Nodes[1], cl.Nodes[3]}
+	if cl.WaitFor(30*time.Second, func() bool {
+		for _, n := range up {
+			b := n.In.ClusterConn.Nodes()
+			if len(b) != 3 {
+				return false
+			}
+			for id := range members {
+				if _, ok := b[id]; !ok {
+					return false
+				}
+			}
+		}
+		return true
+	}) != nil {
+		rec.Inconclusive(desc + ": the members do not list {1, 2, 4}")
+		return
+	}
+	replay := map[string]interface{}{"case": c, "seed": rec.Seed(), "desc": desc, "partition_groups_node_3_led": led}
+	for _, via := range up[:2] {
+		for _, R := range []uint32{2, 3, 5} {
+			var d *storage.Dataset
+			for attempt := 0; attempt < 8 && d == nil; attempt++ {
+				cl.Guard(6*time.Second, func() {
+					d, cerr = via.DM().Create(context.Background(), &pb.Dataset{Dimension: 3, PartitionCount: 4, ReplicationFactor: R})
+				})
+				if d == nil {
+					time.Sleep(300 * time.Millisecond)
+				}
+			}
+			if d == nil {
+				rec.Inconclusive(fmt.Sprintf("%s: create through node %d: %v", desc, via.Id, cerr))
+				return
+			}
+			want := int(R)
+			if want > len(members) {
+				want = len(members)
+			}
+			for i, p := range d.Meta().GetPartitions() {
+				seen := map[uint64]bool{}
+				for _, id := range p.GetNodeIds() {
+					if !members[id] {
+						rec.Violation("placement:non-member:behind-a-stuck-membership-handler", fmt.Sprintf("%s: a dataset created through node %d (which lists %v) has partition %d on %v", desc, via.Id, via.In.ClusterConn.Nodes(), i, p.GetNodeIds()), replay)
+						return
+					}
+					if seen[id] {
+						rec.Violation("placement:duplicate-node:behind-a-stuck-membership-handler", fmt.Sprintf("%s: partition %d on %v", desc, i, p.GetNodeIds()), replay)
+						return
+					}
+					seen[id] = true
+				}
+				if len(p.GetNodeIds()) != want {
+					rec.Violation("placement:wrong-replica-count:behind-a-stuck-membership-handler", fmt.Sprintf("%s: R=%d through node %d (which lists %v): partition %d on %v, want %d of the %d members", desc, R, via.Id, via.In.ClusterConn.Nodes(), i, p.GetNodeIds(), want, len(members)), replay)
+					return
+				}
+				rec.Count("placements_checked_behind_a_stuck_handler", 1)
+			}
+		}
+	}
+	rec.Case(mon.Digest(desc), true)
+}
